@@ -156,6 +156,10 @@ def _int_constrained_open_ended(t, v):
     return h is None or None in h
 
 
+def _constraint_has_allexcept(M, t):
+    return any(isinstance(t.get(key), dict) and "op" in t[key] and has_op(t[key], "allexcept") for key in ("c", "size"))
+
+
 def _constraint_has_except(M, t):
     for key in ("c", "size"):
         if isinstance(t.get(key), dict) and "op" in t[key] and (has_op(t[key], "except") or has_op(t[key], "allexcept")):
@@ -406,6 +410,7 @@ PREDS = {
     "int_semi_constrained": any_leaf(_int_semi_constrained),
     "int_constrained_open_ended": any_leaf(_int_constrained_open_ended),
     "constraint_has_except": any_type(_constraint_has_except),
+    "constraint_has_allexcept": any_type(_constraint_has_allexcept),
     "int_unsigned_ge_2p63": any_leaf(_int_unsigned_ge_2p63),
     "int_range_needs_64_bits": any_leaf(_int_range_needs_64_bits),
     "real_mantissa_leading_zero": any_leaf(_real_mantissa_leading_zero),
